@@ -46,6 +46,29 @@ class PureBtor(object):
     def Sext(self, a, n):
         return PNode(z3.SignExt(int(n), _bv(a)))
 
+    # Boolean connectives over 1-bit terms (guards of conditional dist constraints)
+    def Not(self, a):
+        return PNode(~_bv(a))
+
+    def Or(self, a, b):
+        return PNode(_bv(a) | _bv(b))
+
+    def And(self, a, b):
+        return PNode(_bv(a) & _bv(b))
+
+    def Ne(self, a, b):
+        return PNode(_bv(a) != _bv(b))
+
+    def Ult(self, a, b):
+        return PNode(z3.ULT(_bv(a), _bv(b)))
+
+    def Ulte(self, a, b):
+        return PNode(z3.ULE(_bv(a), _bv(b)))
+
+    def Redor(self, a):
+        x = _bv(a)
+        return PNode(x != z3.BitVecVal(0, x.size()))
+
 
 def swizzle_forces_target(w, signed, lo, hi, timeout_ms=30000, ranges=None, pick=0):
     """(verdict, model) for one (width, signedness, domain [lo,hi]) configuration; verdict 'unsat' = obligation holds.
@@ -217,3 +240,154 @@ def swizzle_pool(n):
     swz.swizzle_field_l(list(fields), None, {}, FakeBtor())
     ok = bool(asked) and asked[0] == (0, n - 1) and bool(picked) and picked[0] is fields[n - 1] and len(set(id(p) for p in picked)) == min(n, 4)
     return ok, {"asked": asked[:5], "picked": [p.name for p in picked]}
+
+
+def _guarded_dist_nodes(w, else_branch, implies, btor, target, symbolic):
+    """drive the real per-call pipeline on an object built through the public API; returns (nodes, field a, field mode)"""
+    from vf import symex, e3
+    import vsc
+    from vsc.model.randomizer import Randomizer
+    from vsc.model.rand_info_builder import RandInfoBuilder
+    from vsc.visitors.variable_bound_visitor import VariableBoundVisitor
+    from vsc.visitors.array_constraint_builder import ArrayConstraintBuilder
+    from vsc.visitors.dist_constraint_builder import DistConstraintBuilder
+    from vsc.visitors.constraint_override_rollback_visitor import ConstraintOverrideRollbackVisitor
+    from vsc.model.solvegroup_swizzler_partsel import SolveGroupSwizzlerPartsel
+    from vsc.model.rand_state import RandState
+    import vsc.model.solvegroup_swizzler_partsel as SP
+    import contextlib
+    DV = GUARDED_DV
+
+    @vsc.randobj
+    class C(object):
+        def __init__(self):
+            self.mode = vsc.rand_bit_t(1)
+            self.a = vsc.rand_bit_t(w)
+
+        @vsc.constraint
+        def c(self):
+            if implies:
+                with vsc.implies(self.mode == 1):
+                    vsc.dist(self.a, [vsc.weight(DV[0], 1), vsc.weight(DV[1], 1)])
+            elif else_branch:
+                with vsc.if_then(self.mode == 0):
+                    self.a < (1 << w)
+                with vsc.else_then:
+                    vsc.dist(self.a, [vsc.weight(DV[0], 1), vsc.weight(DV[1], 1)])
+            else:
+                with vsc.if_then(self.mode == 1):
+                    vsc.dist(self.a, [vsc.weight(DV[0], 1), vsc.weight(DV[1], 1)])
+    o = C()
+    fm = o.get_model()
+    fa = [f for f in fm.field_l if f.name == "a"][0]
+    fmode = [f for f in fm.field_l if f.name == "mode"][0]
+    randstate = RandState.mkFromSeed(20261002)      # the same dist entry is drawn in the symbolic run and in its replay
+    constraint_l = []
+    fm.set_used_rand(True, 0)
+    try:
+        fm.pre_randomize([])
+        bounds_v = VariableBoundVisitor()
+        bounds_v.process([fm], constraint_l, False)
+        try:
+            constraint_l.extend(ArrayConstraintBuilder.build(fm, bounds_v.bound_m))
+            DistConstraintBuilder.build(randstate, fm)
+            bounds_v.process([fm], constraint_l)
+            ri = RandInfoBuilder.build([fm], constraint_l, Randomizer._rng)
+            rs = [r for r in ri.randsets() if fa in r.all_fields()][0]
+            for f in rs.all_fields():
+                f.build(btor)
+
+            class RS(object):
+                rng = randstate.rng
+
+                def randint(self, a, b):
+                    if (a, b) == (0, (1 << w) - 1):
+                        return target                      # the domain target: any value of the type
+                    return randstate.randint(a, b)
+            swz = SolveGroupSwizzlerPartsel(RS(), None)
+            with (e3.pyvsc_standins([SP]) if symbolic else contextlib.nullcontext()):
+                exprs = swz.swizzle_field(fa, rs, bounds_v.bound_m)
+                nodes = [e.build(btor) for e in exprs]
+        finally:
+            ConstraintOverrideRollbackVisitor.rollback(fm)
+    finally:
+        fm.set_used_rand(False, 0)
+        for f in (fa, fmode):
+            if not symbolic:
+                pass
+    return nodes, fa, fmode
+
+
+GUARDED_DV = (1, 2)
+
+
+def guarded_dist_swizzle(w=4, else_branch=False, implies=False, timeout_ms=30000):
+    """A dist under a condition over a RANDOM field (if_then / else_then / implies): the randomising constraints the real pipeline
+    (RandInfoBuilder -> SolveGroupSwizzlerPartsel.swizzle_field) builds for the dist field must (i) force a dist value while the
+    condition holds and (ii) force the domain target t -- symbolic, any value of the type -- while it does not, and admit it.
+    The object is built through the public API; the per-call preamble of Randomizer._do_randomize is replayed on its model.
+    returns (verdict, detail, n_nodes, cex): verdict 'unsat' = all obligations hold; cex = (obligation, t, a, mode)"""
+    from vf import symex
+    DV = GUARDED_DV
+    btor = PureBtor()
+    ctx = symex.Ctx("bv", [])
+    symex._cur = ctx
+    try:
+        t = symex.SInt(z3.BitVec("t", symex.W), 70)
+        nodes, fa, fmode = _guarded_dist_nodes(w, else_branch, implies, btor, t, True)
+    finally:
+        symex._cur = None
+    conj = z3.And(*[n.z if z3.is_bool(n.z) else (n.z == 1) for n in nodes])
+    az, mz = fa.var.z, fmode.var.z
+    fa.var = None
+    fmode.var = None
+    tz = z3.BitVec("t", symex.W)
+    aint = z3.ZeroExt(symex.W - w, az)
+    g = (mz == 1)
+    intype = z3.And(tz >= 0, tz <= (1 << w) - 1)
+    indv = z3.Or(*[aint == v for v in DV])
+    obligations = [("guard_holds_forces_dist_value", z3.And(intype, g, conj, z3.Not(indv))),
+                   ("guard_fails_forces_domain_target", z3.And(intype, z3.Not(g), conj, aint != tz)),
+                   ("guard_fails_admits_domain_target", z3.And(intype, z3.Not(g), aint == tz, z3.Not(conj)))]
+    for nm, fml in obligations:
+        s = z3.Solver()
+        s.set("timeout", timeout_ms)
+        s.add(fml)
+        r = s.check()
+        if r == z3.sat:
+            m = s.model()
+            ev = lambda x: m.eval(x, model_completion=True).as_long()
+            return "sat", "%s: %s" % (nm, m), len(nodes), (nm, ev(tz), ev(az), ev(mz))
+        if r != z3.unsat:
+            return str(r), nm, len(nodes), None
+    # vacuity: some value of a satisfies the conjunction while the guard holds
+    s = z3.Solver()
+    s.add(g, conj)
+    if s.check() != z3.sat:
+        return "vacuous", "no dist value is admitted while the guard holds", len(nodes), None
+    return "unsat", None, len(nodes), None
+
+
+def replay_guarded_dist(w, else_branch, implies, cex):
+    """replay of a guarded-dist counterexample with the real Boolector: concrete domain target, the field and guard values of the
+    model; True = the real constraints behave as the counterexample says"""
+    import pyboolector
+    import vsc.model.randomizer as RZ
+    nm, t, aval, mval = cex
+    btor = pyboolector.Boolector()
+    btor.Set_opt(RZ.BTOR_OPT_INCREMENTAL, True)
+    btor.Set_opt(RZ.BTOR_OPT_MODEL_GEN, True)
+    nodes, fa, fmode = _guarded_dist_nodes(w, else_branch, implies, btor, t, False)
+    try:
+        btor.Assert(btor.Eq(fa.var, btor.Const(aval, w)))
+        btor.Assert(btor.Eq(fmode.var, btor.Const(mval, 1)))
+        if nm == "guard_fails_admits_domain_target":
+            for n in nodes:
+                btor.Assert(n)
+            return btor.Sat() != btor.SAT
+        for n in nodes:
+            btor.Assert(n)
+        return btor.Sat() == btor.SAT
+    finally:
+        fa.var = None
+        fmode.var = None
